@@ -4,7 +4,7 @@
    the patch lists and the finally layout are gen/C13Consts.v, regenerated from /repo by T1. *)
 From Coq Require Import List String NArith Bool.
 From RC Require Import gen.C13Consts model.PatchStackC13 proofs.PatchStackC13P proofs.AnalyseC13P
-  proofs.ExitC13P proofs.TheoremsC13P proofs.WitnessC13P proofs.ContentC13P proofs.ThreadsC13P.
+  proofs.ExitC13P proofs.TheoremsC13P proofs.WitnessC13P proofs.ContentC13P proofs.ThreadsC13P proofs.FallbackC13P.
 Import ListNotations.
 Open Scope string_scope.
 
@@ -66,7 +66,7 @@ Theorem C13_setup_py_partial : forall root hook cy p s,
   (cy = true -> get k_cythonize s <> None) ->
   forallb (fun m => is_plain (snd m)) (mods s) = true ->
   (forall n, In n fake_names -> mmem n (mods s) = false) ->
-  mod_ops_ok (mods s) (fst p) -> no_meta_ins (fst p) -> callable e sp = true ->
+  mod_ops_ok (rel_recognised e sp) (mods s) (fst p) -> no_meta_ins (fst p) -> callable e sp = true ->
   exists s', analyse root hook cy false p s = Alive s' /\
     listed_state (effective_keys s) s' = listed_state (effective_keys s) s.
 Proof. exact setup_py_partial. Qed.
@@ -180,6 +180,30 @@ Proof.
                    (two_threads_finished cwd0 srcA srcB dirsA dirsB sched))).
 Qed.
 Print Assumptions C13_pyproject_two_threads_cwd.
+
+(* the egg-info fall-back REALLY runs the script, in a private copy: NonExtractor.extract copies
+   the tree (obligation), so whatever the script does there - rewriting a file in place, appending,
+   replacing, deleting, creating - the project's files and contents are what they were *)
+Theorem C13_fallback_leaves_project :
+  scratch_copy_is_copy = true /\ forall ops proj, fallback_dir ops proj = proj.
+Proof. exact (conj scratch_copy_is_copy_ok fallback_leaves_project). Qed.
+Print Assumptions C13_fallback_leaves_project.
+
+(* project modules loaded by a RELATIVE file path are recognised by the purge: contains_path makes
+   the path absolute with os.path.abspath (obligation), which is the analyser's replacement unless
+   the script touched os.path.abspath / os.getcwd; with that, C13_setup_py_partial's mod_ops_ok
+   admits such loads *)
+Theorem C13_relative_path_modules_recognised :
+  contains_path_uses_abspath = true /\
+  forall root hook cy p s s1 ot s2 tk,
+    let e := mk_env root hook cy false s in
+    patch_enter outer_patched outer_base (with_vcwd root s) = (s1, ot) ->
+    enter_parse e s1 = inl (s2, tk) ->
+    forallb (fun o => negb (touches k_abspath o)) (fst p) = true ->
+    forallb (fun o => negb (touches k_getcwd o)) (fst p) = true ->
+    rel_recognised e (fst (body e p s2)) = true.
+Proof. exact (conj contains_path_uses_abspath_ok rel_recognised_untouched). Qed.
+Print Assumptions C13_relative_path_modules_recognised.
 
 (* file operations that go through the substituted functions never change the project *)
 Theorem C13_project_files_untouched_partial : forall ops tree,
